@@ -4,6 +4,7 @@ ENGINES = [
     {"name": "E1 refcodec", "path": "vlib/refcodec.py", "serves_properties": ["C01","C02","C03"], "kind_free_text": "independent RFC 7252 section 3 codec used as differential oracle and by the raw peers"},
     {"name": "E2 simnet", "path": "vlib/simnet.py", "serves_properties": ["C02", "C03", "C04", "C05", "C06", "C07", "C08", "C09", "C10", "C14", "C18"], "kind_free_text": "virtual-clock asyncio loop + simulated datagram network under the real aiocoap stack; scripted raw peers; per-datagram fates"},
     {"name": "E3 ref8323", "path": "vlib/ref8323.py", "serves_properties": ["C15"], "kind_free_text": "independent RFC 8323 section 3.2 framer/serialiser"},
+    {"name": "E5 OSCORE env", "path": "vlib/oscoreenv.py", "serves_properties": ["C11", "C12", "C13"], "kind_free_text": "CPython 3.11 + system cryptography + pure-Python cbor2/filelock shims; RFC 8613 vector self-test"},
 ]
 ALL = ["C%02d" % i for i in range(1, 21)]
 CHECKS = [
@@ -134,6 +135,14 @@ CHECKS += [
         "technique": "model-based (stateful) property testing: histories of register / update / delete / expire / lookup steps on a virtual clock against a reference directory model that applies a write only when it was answered 2.xx",
         "text": "Generated histories run against a real StandaloneResourceDirectory; after every step endpoint lookup (also filtered), resource lookup and the registration resources are compared with the model's unexpired entries and their latest successful writes, locations are checked for stability and uniqueness, and expiry is driven on the virtual clock around lt+15 s. Sampled histories.",
         "note": "trusted: reference model and link-format parser (vlib/linkfmt.py), VirtualClockLoop; simple registration and proxying are not exercised",
+    },
+]
+CHECKS += [
+    {
+        "id": "C11", "engine": "E5 OSCORE environment (py3.11 + shims) + Hypothesis", "level": "exploration",
+        "technique": "property-based round-trip, hiding and must-fail testing: generated context pairs, messages and tamperings (bit flips, truncations, field replacements, cross-context verification) through the real protect / wire / unprotect call sequence",
+        "text": "Context pairs over eight AEADs and all ID lengths protect generated requests and responses that travel as bytes; the oracle checks the round trip, the outer-field whitelist and absence of markers in the outer bytes, that a response does not verify for another request, and that every generated tampering or foreign context ends in a protection error and never in a message or another exception. Sampled inputs.",
+        "note": "trusted: Debian python3-cryptography on CPython 3.11, the cbor2/filelock shims (validated by the RFC 8613 Appendix C vectors in the self-test), refcodec for tamper surgery, the independent option reader in checks/c11.py",
     },
 ]
 claimed = {c["id"] for c in CHECKS}
